@@ -53,6 +53,15 @@ def hash_attr(I, h, name):
         h.buf = z3.Concat(h.buf, as_sstr(d).term)
 
     def digest(I_, a, k):
+        cb = z3.simplify(h.buf)
+        if z3.is_string_value(cb):
+            # concrete input: the real digest
+            import hashlib
+            from .harness import decode_z3_string
+            data = bytes(ord(c) for c in decode_z3_string(cb.as_string()))
+            if h.name.startswith("blake2b_"):
+                return hashlib.blake2b(data, digest_size=h.size).digest()
+            return hashlib.new(h.name, data).digest()
         out = z3.simplify(hash_fn(h.name)(h.buf))
         I.path.fact(z3.Length(out) == h.size, "hash:%s output is %d bytes (uninterpreted function of its input)" % (h.name, h.size))
         return SStr(out, True, h.size)
